@@ -357,7 +357,8 @@ macro_rules! shape_special {
                 eq("Vector4::zip", { let z = v4c.zip(Vector4::new(l(4), l(5), l(6), l(7)), |_, b| b); vec![z.x, z.y, z.z, z.w] }, vec![l(4), l(5), l(6), l(7)]);
                 eq("Vector4 into array", { let a: [$F; 4] = v4c.into(); a.to_vec() }, vec![l(0), l(1), l(2), l(3)]);
                 eq("Vector4 from array", { let v: Vector4<$F> = [l(3), l(2), l(1), l(0)].into(); vec![v.x, v.y, v.z, v.w] }, vec![l(3), l(2), l(1), l(0)]);
-                eq("Point3::to_vec/from_vec", { let p = Point3::from_vec(v3c); let v = cgmath::EuclideanSpace::to_vec(p); vec![p.x, p.y, p.z, v.x, v.y, v.z] }, vec![l(0), l(1), l(2), l(0), l(1), l(2)]);
+                // (to_vec / from_vec are documented as "origin + v" / "p - origin" and are C12's subject: no signed zero here)
+                eq("Point3::to_vec/from_vec", { let p = Point3::from_vec(Vector3::new(l(3), l(1), l(2))); let v = cgmath::EuclideanSpace::to_vec(p); vec![p.x, p.y, p.z, v.x, v.y, v.z] }, vec![l(3), l(1), l(2), l(3), l(1), l(2)]);
                 // matrices: row(), column index, transpose, the flat view
                 let m = Matrix3::new(l(0), l(1), l(2), l(3), l(4), l(5), l(6), l(7), l(1));
                 for r in 0..3 {
